@@ -256,7 +256,7 @@ def parallel(res, fn, jobs):
 
 def correspondence(res):
     W = 14
-    n = 120 if res.tier == "quick" else 2000
+    n = 120 if res.tier == "quick" else 700
     terms, infos = parallel(res, run_worker, [(res.seed * 100 + w, max(1, n // W), 3) for w in range(W)])
     codes = common.run_case_codes("C02", "corr", HEADER, terms, "c02_corr", chunk=80, ctype=CT)
     bad = [i for i, v in enumerate(codes) if v != 1]
@@ -270,7 +270,7 @@ def correspondence(res):
     if bad:
         broken = Broken(f"correspondence evaluator: model and implementation differ (or oracle incomplete) on {len(bad)}/{len(codes)} cases",
                         repr(infos[bad[0]]))
-    e2e(res, 70 if res.tier == "quick" else 1200)
+    e2e(res, 70 if res.tier == "quick" else 420)
     if broken:
         raise broken
 
